@@ -1015,8 +1015,8 @@ def spaces(quick: bool) -> list[dict]:
                   entries=rec_entries)
         om = dict(family="mb", containers=("OP",), shapes=MB_SHAPES0, terms=mbt, leaf=leaf1, leaf2=leaf2, entries=omp_entries)
         out += [
-            dict(om, name="mb-omp-2", min_blocks=1, max_blocks=2, max_leaf=3),
-            dict(om, name="mb-omp-3", min_blocks=3, max_blocks=3, max_leaf=2, shapes=("plain",)),
+            dict(om, name="mb-omp-2", min_blocks=1, max_blocks=2, max_leaf=2, leaf2=leaf1),
+            dict(om, name="mb-omp-3", min_blocks=3, max_blocks=3, max_leaf=2, leaf2=("D", "W0", "U0"), shapes=("plain",)),
             dict(om, name="mb-omp-3-capture", min_blocks=3, max_blocks=3, max_leaf=1, shapes=("capture",)),
             dict(rc, name="mb-rec-2", min_blocks=1, max_blocks=2, max_leaf=2),
             dict(rc, name="mb-rec-3", min_blocks=3, max_blocks=3, max_leaf=1),
